@@ -137,7 +137,7 @@ theorem drainReleases_total (q : List Queued) (np : Nat) (achs : List ActiveChor
 theorem ppRetain_length_le (q : List Queued) (acc : List Nat) : (ppRetain q acc).length ≤ q.length :=
   List.length_filter_le _ _
 
-theorem getActiveChord_not_released (cch : ChordV2) (since coord : Nat) (rf : Bool) :
+theorem getActiveChord_not_released (cch : ChordV2) (since coord : Nat) (rf : Option Nat) :
     ((getActiveChord cch since coord rf).status == AchStatus.released) = false := by
   unfold getActiveChord
   simp only []
@@ -148,7 +148,7 @@ def relCount (achs : List ActiveChord) : Nat := (achs.filter (fun a => a.status 
 
 theorem relCount_le (achs : List ActiveChord) : relCount achs ≤ achs.length := List.length_filter_le _ _
 
-theorem relCount_append_new (achs : List ActiveChord) (cch : ChordV2) (since coord : Nat) (rf : Bool) :
+theorem relCount_append_new (achs : List ActiveChord) (cch : ChordV2) (since coord : Nat) (rf : Option Nat) :
     relCount (achs ++ [getActiveChord cch since coord rf]) = relCount achs := by
   unfold relCount
   rw [List.filter_append, List.length_append]
@@ -205,11 +205,12 @@ theorem drainInputs_cap (s : ChV2) (dq : List Queued) (layer : Nat) (h : dq.leng
       have ha2 : achs2.length = s.active.length := by
         rw [drainReleases_active _ _ _ _ _ _ _ hr, applyReleases_length]
       obtain ⟨s3, hp, hq3, ha3, hc3, hrel3⟩ := processPresses_total
-        { s with ticksUntilChange := 0, prevActiveLayer := layer, prevQueueLen := s.queue.length % 256,
+        { s with ticksUntilChange := 0, prevActiveLayer := layer,
                  queue := k2, active := achs2 } layer
       simp only [hv, hr, hp]
       dsimp only at hq3 ha3 hc3 hrel3
-      refine ⟨s3, dq2, rfl, by omega, by omega, by omega, ?_, ?_⟩
+      refine ⟨{ s3 with prevQueueLen := s3.queue.length % 256 }, dq2, rfl, by dsimp only; omega, by dsimp only; omega,
+        by dsimp only; omega, ?_, ?_⟩
       · intro hb; exact hc3 (by omega)
       · rw [hrel3]; exact Nat.le_trans (relCount_le _) (by omega)
 
